@@ -42,10 +42,12 @@ func Harness_C17_foreign_archive() {
 	if vm.Bool("dirsWithTrailingSlash") {
 		slash = "/"
 	}
-	d := persisters.VerifComponent("D", 1, "ab")
+	// (sibling directories whose names differ by case only, or where one has '_' or '%' where the other has a letter)
+	d := persisters.VerifComponent("D", 1, "abA_")
 	f := persisters.VerifComponent("F", 1, "ab")
 	g := persisters.VerifComponent("G", 1, "ab")
-	vm.Assume(g != d)
+	e := persisters.VerifComponent("E", 1, "abA_%")
+	vm.Assume(g != d && e != d && e != g)
 	var top, prefix string
 	switch style {
 	case 0: // tar cf x.tar .
@@ -73,6 +75,8 @@ func Harness_C17_foreign_archive() {
 	add(prefix+d+slash, true, 0)
 	add(prefix+d+"/"+f, false, 3)
 	add(prefix+g, false, 2)
+	add(prefix+e+slash, true, 0)
+	add(prefix+e+"/k", false, 1)
 	t.AddTrailer()
 
 	root, err := v.FS.Initialize("/", os.ModePerm)
@@ -91,10 +95,13 @@ func Harness_C17_foreign_archive() {
 	// every member is listed under its directory exactly once
 	topList, lerr := inventory.List(md, root, -1, nil)
 	vm.Assert("C17.list_root_ok", lerr == nil)
-	vm.Assert("C17.root_lists_its_two_members_once", len(topList) == 2 && c17Has(topList, prefix+d) == 1 && c17Has(topList, prefix+g) == 1)
+	vm.Assert("C17.root_lists_its_members_once", len(topList) == 3 && c17Has(topList, prefix+d) == 1 && c17Has(topList, prefix+g) == 1 && c17Has(topList, prefix+e) == 1)
 	subList, serr := inventory.List(md, prefix+d, -1, nil)
 	vm.Assert("C17.list_subdir_ok", serr == nil)
 	vm.Assert("C17.subdir_lists_its_member_once", len(subList) == 1 && c17Has(subList, prefix+d+"/"+f) == 1)
+	sibList, sierr := inventory.List(md, prefix+e, -1, nil)
+	vm.Assert("C17.list_sibling_dir_ok", sierr == nil)
+	vm.Assert("C17.sibling_dir_lists_its_member_once", len(sibList) == 1 && c17Has(sibList, prefix+e+"/k") == 1)
 
 	// spellings resolve to the same entry
 	spellings := []string{prefix + d + "/" + f}
